@@ -14,6 +14,10 @@ func main() {
 		os.Exit(2)
 	}
 	switch os.Args[1] {
+	case "run":
+		os.Exit(cmdRun(os.Args[2:]))
+	case "replay":
+		os.Exit(cmdReplay(os.Args[2:]))
 	case "dev":
 		fs := flag.NewFlagSet("dev", flag.ExitOnError)
 		workers := fs.Int("workers", 1, "")
